@@ -16,7 +16,7 @@ from mc import lattice
 from mc.oracle import hyp
 
 TOL = 1e-9
-NORM_CAP = 1e3      # library class predicates use an absolute 1e-8 threshold: only read for |M| <= 1e3
+NORM_CAP = 20.0     # library class predicates use an absolute 1e-8 threshold: only read for |M| <= 20
 INF = -1            # Coxeter label for infinity
 
 
@@ -72,6 +72,8 @@ def cox_signature(mat):
 # ------------------------------------------------------------------------------------------
 def gen_class(desc):
     k = desc[0]
+    if k == "rotation_np":
+        return "rotation"
     if k in ("origin_to", "timelike_to", "spacelike_to", "tv_origin_to", "tv_isometry_to"):
         fo = desc[-1]
         if k == "spacelike_to" and nullness(desc[1]) < 1e-5:
@@ -87,7 +89,7 @@ def gen_class(desc):
     return "all"
 
 
-SITE = {"origin_to": "Point.origin_to", "tv_origin_to": "TangentVector.origin_to",
+SITE = {"rotation_np": "standard_rotation", "origin_to": "Point.origin_to", "tv_origin_to": "TangentVector.origin_to",
         "tv_isometry_to": "TangentVector.isometry_to", "rotation": "standard_rotation",
         "loxodromic": "standard_loxodromic", "elliptic": "elliptic", "sl2": "sl2_iso",
         "reflection": "reflection_across", "timelike_to": "timelike_to", "spacelike_to": "spacelike_to",
@@ -111,6 +113,8 @@ def build_gen(desc):
         return tv1.isometry_to(tv2, force_oriented=desc[5])
     if k == "rotation":                       # [.., angle, dimension]
         return H.Isometry.standard_rotation(desc[1], dimension=desc[2])
+    if k == "rotation_np":                    # [.., angle, dimension, numpy scalar type]: angle packaged as a NumPy scalar
+        return H.Isometry.standard_rotation(getattr(np, desc[3])(desc[1]), dimension=desc[2])
     if k == "loxodromic":                     # [.., dimension, parameter]
         return H.Isometry.standard_loxodromic(desc[1], desc[2])
     if k == "elliptic":                       # [.., dimension, block, column_vectors]
@@ -147,7 +151,7 @@ def gen_dim(desc):
     k = desc[0]
     if k in ("origin_to", "tv_origin_to", "tv_isometry_to", "timelike_to", "spacelike_to"):
         return len(desc[1]) - 1
-    if k == "rotation":
+    if k in ("rotation", "rotation_np"):
         return desc[2]
     if k in ("loxodromic", "elliptic"):
         return desc[1]
@@ -461,7 +465,22 @@ def full_alphabet(n, seed, quick):
         for fo in (True, False):
             G.append(["origin_to", p.tolist(), fo])
             G.append(["timelike_to", p.tolist(), fo])
+    # the same constructors on unusual but legal parameters: tiny / huge homogeneous scale, points far from the
+    # origin, very short and very long tangent vectors
+    u = lattice.generic_dir(n, 7, seed)
+    for scale in (1e-5, -1e-6, 1e4):
+        for p in P[1:3]:
+            G.append(["origin_to", (scale * np.asarray(p) / abs(lattice.LAMBDAS[0])).tolist(), True])
+            G.append(["timelike_to", (scale * np.asarray(p)).tolist(), False])
+    for R in (5.0, 8.0):
+        far = np.concatenate([[math.cosh(R)], math.sinh(R) * u])
+        G.append(["origin_to", far.tolist(), True])
+        G.append(["origin_to", (1e-3 * far).tolist(), False])
     TP = tangent_pairs(n, seed)
+    for (p, w) in TP[:2]:
+        for ws in (1e-5, 1e-7, 1e3):
+            G.append(["tv_origin_to", p, (ws * np.asarray(w)).tolist(), True])
+        G.append(["tv_origin_to", (1e-5 * np.asarray(p)).tolist(), w, False])
     for i, (p, w) in enumerate(TP):
         for fo in (True, False):
             G.append(["tv_origin_to", p, w, fo])
@@ -469,8 +488,12 @@ def full_alphabet(n, seed, quick):
         G.append(["tv_isometry_to", p, w, p2, w2, [None, True, False][i % 3]])
     for th in (0.7, math.pi / 2, -2.1):
         G.append(["rotation", th, n])
+    for th, ty in ((1, "int64"), (2, "int32"), (3, "float64")):
+        G.append(["rotation_np", th, n, ty])
+    G.append(["rotation", 2, n])              # Python int angle
     for lam in (1.5, 0.4):
         G.append(["loxodromic", n, lam])
+    G.append(["loxodromic", n, 2])            # Python int parameter
     for i, B in enumerate(signed_perm_blocks(n, 48 if quick else 384)):
         G.append(["elliptic", n, B, i % 2 == 0])
     if n == 2:
